@@ -294,10 +294,12 @@ def net_file(bdir, kind="material", seed=1):
     """Synthetic network file for the TEXEL_VERIF_NET hook (generated once per kind/seed)."""
     p = os.path.join(BUILD, f"net_{kind}_{seed}.bin")
     if not os.path.exists(p):
-        rc, out = sh([os.path.join(bdir, "mknet"), str(seed), kind, p + ".tmp"])
+        import threading
+        tmp = f"{p}.{os.getpid()}.{threading.get_ident()}.tmp"
+        rc, out = sh([os.path.join(bdir, "mknet"), str(seed), kind, tmp])
         if rc != 0:
             raise RuntimeError("mknet failed: " + out)
-        os.replace(p + ".tmp", p)
+        os.replace(tmp, p)
     return p
 
 
